@@ -168,7 +168,7 @@ pub fn gen(a: &Args) -> String {
     let mut r = Rng::new(a.seed);
     let mut out = Out::default();
     out.buf.push_str(&format!("#rule {}\n", RULE));
-    let n_cases = if a.thorough { 20000 } else { 2000 };
+    let n_cases = if a.thorough { 40000 } else { 6000 };
     for id in 0..n_cases {
         let mut cr = r.fork();
         let len = if a.thorough { cr.range(10, 200) } else { cr.range(10, 80) } as usize;
